@@ -1178,7 +1178,7 @@ pub fn sched_subs_for(id: &str) -> Vec<Sub> {
                     )
                 },
                 40_000,
-                600_000,
+                250_000,
             ),
             sched_sub(
                 p_sched::SchedProp {
@@ -1196,7 +1196,7 @@ pub fn sched_subs_for(id: &str) -> Vec<Sub> {
                     )
                 },
                 6_000,
-                150_000,
+                60_000,
             ),
         ],
         "C13" => vec![sub(
